@@ -52,6 +52,7 @@ Proof. exact parse_trait_row. Qed.
    among the readings it tries and the document is unambiguous (no reading parses to another value) *)
 Theorem C12_decode_json : forall d o t, wf_defn d -> gen d o = Built t ->
   forall c r jv, In c (t_cols t) -> col_parsable c = true -> In r (col_rows c) ->
+  jv_null jv = false ->
   In (cl_val (r_cell r)) (json_attempts t jv) -> unambiguous t (json_attempts t jv) (g_z (r_owner r)) ->
   decode_json t jv = Some (g_z (r_owner r)).
 Proof. exact decode_trait_json. Qed.
@@ -71,30 +72,30 @@ Proof. exact decode_trait_text. Qed.
    cell of that type), string kinds, self-unmarshaling types *)
 Theorem C12_decode_json_int : forall d o t, wf_defn d -> gen d o = Built t ->
   forall c r, In c (t_cols t) -> col_parsable c = true -> In r (col_rows c) ->
-  forall jv z, col_kind c = KInt64 -> ti_json_own (col_info c) = false ->
+  forall jv z, jv_null jv = false -> col_kind c = KInt64 -> ti_json_own (col_info c) = false ->
   cl_val (r_cell r) = typed_int c z -> conv_int (col_bkind c) z = z -> jv_i64 jv = Some z ->
   unambiguous t (json_attempts t jv) (g_z (r_owner r)) -> decode_json t jv = Some (g_z (r_owner r)).
 Proof. exact json_int. Qed.
 Theorem C12_decode_json_uint : forall d o t, wf_defn d -> gen d o = Built t ->
   forall c r, In c (t_cols t) -> col_parsable c = true -> In r (col_rows c) ->
-  forall jv z, col_kind c = KUint64 -> ti_json_own (col_info c) = false ->
+  forall jv z, jv_null jv = false -> col_kind c = KUint64 -> ti_json_own (col_info c) = false ->
   cl_val (r_cell r) = typed_int c z -> conv_int (col_bkind c) z = z -> jv_u64 jv = Some z ->
   unambiguous t (json_attempts t jv) (g_z (r_owner r)) -> decode_json t jv = Some (g_z (r_owner r)).
 Proof. exact json_uint. Qed.
 Theorem C12_decode_json_string : forall d o t, wf_defn d -> gen d o = Built t ->
   forall c r, In c (t_cols t) -> col_parsable c = true -> In r (col_rows c) ->
-  forall jv s, col_kind c = KString -> ti_json_own (col_info c) = false ->
+  forall jv s, jv_null jv = false -> col_kind c = KString -> ti_json_own (col_info c) = false ->
   cl_val (r_cell r) = typed c (PStr s) -> jv_string jv = Some s ->
   unambiguous t (json_attempts t jv) (g_z (r_owner r)) -> decode_json t jv = Some (g_z (r_owner r)).
 Proof. exact json_typed_string. Qed.
 Theorem C12_decode_json_plain_string : forall d o t, wf_defn d -> gen d o = Built t ->
   forall c r, In c (t_cols t) -> col_parsable c = true -> In r (col_rows c) ->
-  forall jv s, cl_val (r_cell r) = DStr s -> jv_string jv = Some s ->
+  forall jv s, jv_null jv = false -> cl_val (r_cell r) = DStr s -> jv_string jv = Some s ->
   unambiguous t (json_attempts t jv) (g_z (r_owner r)) -> decode_json t jv = Some (g_z (r_owner r)).
 Proof. exact json_plain_string. Qed.
 Theorem C12_decode_json_native : forall d o t, wf_defn d -> gen d o = Built t ->
   forall c r, In c (t_cols t) -> col_parsable c = true -> In r (col_rows c) ->
-  forall jv p, ti_json_own (col_info c) = true ->
+  forall jv p, jv_null jv = false -> ti_json_own (col_info c) = true ->
   cl_val (r_cell r) = typed c p -> lookup (col_type c) (jv_native jv) = Some (Some p) ->
   unambiguous t (json_attempts t jv) (g_z (r_owner r)) -> decode_json t jv = Some (g_z (r_owner r)).
 Proof. exact json_native. Qed.
@@ -151,7 +152,7 @@ Proof. exact full_statement_refuted. Qed.
    self-unmarshaling type) *)
 Theorem C12_partial : forall d o t, wf_defn d -> gen d o = Built t ->
   forall c r jv, In c (t_cols t) -> col_parsable c = true -> In r (col_rows c) ->
-  json_holds_decodable c jv (cl_val (r_cell r)) ->
+  jv_null jv = false -> json_holds_decodable c jv (cl_val (r_cell r)) ->
   unambiguous t (json_attempts t jv) (g_z (r_owner r)) ->
   decode_json t jv = Some (g_z (r_owner r)).
 Proof. exact json_partial. Qed.
@@ -182,6 +183,18 @@ Theorem C12_equal_cells_orig_refuted :
                /\ sem_parse t {| dty := "int"; dval := PInt 10 |} = Some 0
                /\ sem_parse t {| dty := "int"; dval := PInt 12 |} = Some 1.
 Proof. exact equal_cells_orig. Qed.
+(* a parsable plain-string trait that spells its value's own name is the constant the case already
+   lists (generated, Parse returns the owner); spelling the name of another definition is refused;
+   the generator before fix C12-parsable-trait-equals-name emitted `case "Red", "Red"` *)
+Theorem C12_own_name_trait :
+  (exists t, gen on_defn on_opts = Built t
+             /\ sem_parse t (DStr "Red") = Some 0 /\ sem_parse t (DStr "blu") = Some 1)
+  /\ gen on_clash on_opts = GenErr.
+Proof. exact own_name_trait. Qed.
+Theorem C12_own_name_trait_orig_refuted :
+  is_builderr (gen_orig on_defn on_opts) = true /\ is_built (gen on_defn on_opts) = true
+  /\ is_builderr (gen_orig on_clash on_opts) = true /\ is_generr (gen on_clash on_opts) = true.
+Proof. exact own_name_orig. Qed.
 Theorem C12_untyped_rune_orig_refuted :
   extract_underlying_orig BUntypedRune = KUnknown /\ extract_underlying BUntypedRune = KInt64.
 Proof. exact rune_orig. Qed.
@@ -225,4 +238,6 @@ Print Assumptions C12_row_index_orig_refuted.
 Print Assumptions C12_row_index2_orig_refuted.
 Print Assumptions C12_native_variable_orig_refuted.
 Print Assumptions C12_equal_cells_orig_refuted.
+Print Assumptions C12_own_name_trait.
+Print Assumptions C12_own_name_trait_orig_refuted.
 Print Assumptions C12_untyped_rune_orig_refuted.
